@@ -172,6 +172,42 @@ func zeroExpr(kind string, ptr bool, name string) string {
 	return "nil"
 }
 
+// inlineGroups wraps part of the items into k anonymous wire.NewSet(...) groups
+// (the second one nested one level deeper); semantics are unchanged.
+func inlineGroups(items []string, k int) []string {
+	if k <= 0 || len(items) < 2 {
+		return items
+	}
+	if k > len(items)-1 {
+		k = len(items) - 1
+	}
+	groups := make([][]string, k+1)
+	n := 0
+	for _, it := range items {
+		if strings.HasPrefix(it, "wire.Bind(") {
+			// an anonymous group is a provider set of its own: a binding must stay where its concrete type is provided
+			groups[0] = append(groups[0], it)
+			continue
+		}
+		groups[n%(k+1)] = append(groups[n%(k+1)], it)
+		n++
+	}
+	for gi := 1; gi <= k; gi++ {
+		if len(groups[gi]) == 0 {
+			return items
+		}
+	}
+	out := append([]string{}, groups[0]...)
+	for gi := 1; gi <= k; gi++ {
+		g := "wire.NewSet(" + strings.Join(groups[gi], ", ") + ")"
+		if gi == 2 {
+			g = "wire.NewSet(" + g + ")"
+		}
+		out = append(out, g)
+	}
+	return out
+}
+
 // item renders one wire.Build / wire.NewSet argument for the source of type t.
 func (m *Module) item(from int, t *Type, imports map[int]bool) string {
 	switch t.Src.Kind {
@@ -387,6 +423,9 @@ func (m *Module) renderTypes(p *Pkg) world.File {
 				items = append(items, m.alias(p.Idx, ns.Pkg)+"."+ns.Name)
 			}
 		}
+		if !s.Dup {
+			items = inlineGroups(items, s.Inline)
+		}
 		if len(items) == 0 {
 			fmt.Fprintf(&b, "var %s = wire.NewSet()\n\n", s.Name)
 		} else {
@@ -450,6 +489,7 @@ func (m *Module) renderInjectors(p *Pkg) []world.File {
 					items = append(items, m.item(p.Idx, m.Types[it.Type], imports))
 				}
 			}
+			items = inlineGroups(items, inj.Inline)
 			fmt.Fprintf(&b, "func %s(%s) %s {\n", inj.Name, strings.Join(ps, ", "), results)
 			build := "wire.Build(\n\t\t" + strings.Join(items, ",\n\t\t") + ",\n\t)"
 			if len(items) == 0 {
@@ -507,13 +547,13 @@ func (m *Module) renderDriver() world.File {
 		fmt.Fprintf(&body, "\tsimrt.Register(%q, func() {\n", m.InjKey(inj))
 		switch {
 		case inj.DeclCleanup && inj.DeclErr:
-			fmt.Fprintf(&body, "\t\tv, c, e := %s\n\t\tsimrt.Result(v, true, c, true, e)\n", call)
+			fmt.Fprintf(&body, "\t\tv, c, e := %s\n\t\tsimrt.Result(&v, true, c, true, e)\n", call)
 		case inj.DeclCleanup:
-			fmt.Fprintf(&body, "\t\tv, c := %s\n\t\tsimrt.Result(v, true, c, false, nil)\n", call)
+			fmt.Fprintf(&body, "\t\tv, c := %s\n\t\tsimrt.Result(&v, true, c, false, nil)\n", call)
 		case inj.DeclErr:
-			fmt.Fprintf(&body, "\t\tv, e := %s\n\t\tsimrt.Result(v, false, nil, true, e)\n", call)
+			fmt.Fprintf(&body, "\t\tv, e := %s\n\t\tsimrt.Result(&v, false, nil, true, e)\n", call)
 		default:
-			fmt.Fprintf(&body, "\t\tv := %s\n\t\tsimrt.Result(v, false, nil, false, nil)\n", call)
+			fmt.Fprintf(&body, "\t\tv := %s\n\t\tsimrt.Result(&v, false, nil, false, nil)\n", call)
 		}
 		body.WriteString("\t})\n")
 	}
